@@ -33,19 +33,28 @@ THEOREMS = [P + n for n in (
     'pattern_sample_contents', 'pattern_sample_multiplicity', 'pattern_groups_together',
     'sample_entry', 'sample_nan_iff', 'sample_pred_aligned',
     'bootstrap_sample_rdm_spec', 'bootstrap_sample_pattern_spec', 'bootstrap_sample_spec',
-    'bootstrap_sample_entry')]
+    'bootstrap_sample_entry', 'rdm_sample_size_recovered', 'rdm_model_subsample_agrees',
+    'rdm_model_subsamplePattern_agrees', 'rdm_model_subsamplePattern_defined')]
 RULE = ('one PRNG; stacks of 1-5 RDMs x 2-8 conditions with unique integer tags as '
         'dissimilarities (some source entries NaN or 0), built from vectors or matrices; grouping '
         'descriptors int or str, unique or repeated, list or numpy array, default `index` or a '
         'user-supplied repeated `index`; extra descriptors on both axes; draws recorded from the '
         'seeded numpy generator or injected (thorough: every draw outcome of small stacks); '
-        'optional resampling of a prediction with the returned pattern indices.  A case is '
+        'optional resampling of a prediction with the returned pattern indices; stacks built from a '
+        '1-d vector, with scalar descriptors, without descriptor arguments; explicit '
+        'pattern_descriptor=None; direct RDMs.subsample / subsample_pattern calls with by None or '
+        'named and value a scalar, list, tuple or array of (repeated, possibly absent) values.  A case is '
         'non-trivial when the sample differs from the source (a group left out or drawn twice); '
         'distinct = distinct (mode, stack, descriptors, draws).')
 BRANCHES = ['mode:both', 'mode:rdm', 'mode:pattern', 'desc:int', 'desc:str', 'container:list',
             'container:array', 'by:default', 'by:named', 'grouped:rdm', 'grouped:pattern',
             'dup:rdm', 'dup:pattern', 'left_out:pattern', 'src:nan', 'src:zero', 'form:3d',
-            'form:2d', 'draws:recorded', 'draws:injected', 'pred', 'freq', 'index:repeated']
+            'form:2d', 'draws:recorded', 'draws:injected', 'pred', 'freq', 'index:repeated',
+            # round 2: constructor branches and the scalar / by=None branches of subsample*
+            'form:1d', 'container:scalar', 'container:scalar_pattern', 'n_cond:1', 'container:tuple', 'rdm_desc:none', 'pat_desc:none',
+            'descriptors:none', 'pat_by:explicit_none', 'op:resample', 'resample:rdm',
+            'resample:pattern', 'value:scalar', 'value:np_scalar', 'value:list', 'value:tuple',
+            'value:array', 'value:absent', 'value:repeated', 'resample_by:none', 'resample_by:named']
 ASSUMPTIONS = [
     'np.random.randint(0, n, size=n) returns n integers in [0, n) (checked on every recorded '
     'call); its uniformity is trusted and only sanity-checked by the 6-sigma frequency cases',
@@ -73,6 +82,9 @@ def _container(vals, cont):
         return np.array(vals)
     if cont == 'tuple':
         return tuple(vals)
+    if cont == 'scalar':          # a one-item axis described by a bare value (the constructor wraps it)
+        assert len(vals) == 1
+        return vals[0]
     return list(vals)
 
 
@@ -86,10 +98,15 @@ def _build(case, vecs=None, desc_key='rdm_desc'):
     pd = {k: _container(vals, cont) for k, vals, cont in case['pat_desc']}
     if case.get('form') == '3d':
         x = np.array([squareform(row) for row in v])
+    elif case.get('form') == '1d':
+        assert len(vecs) == 1
+        x = v[0]
     else:
         x = v
-    return RDMs(x, dissimilarity_measure='tag', descriptors={'session': 1},
-                rdm_descriptors=rd, pattern_descriptors=pd)
+    # an empty descriptor list in the case = the argument is not given at all (None)
+    return RDMs(x, dissimilarity_measure='tag',
+                descriptors=None if case.get('no_descriptors') else {'session': 1},
+                rdm_descriptors=rd if rd else None, pattern_descriptors=pd if pd else None)
 
 
 def _norm(x):
@@ -127,9 +144,12 @@ def _stack_json(rdms):
 
 def _canon_stack(st):
     """order of descriptor keys is not part of the property"""
-    return {'n_cond': st['n_cond'], 'vecs': st['vecs'],
-            'rdm_desc': {k: v for k, v in st['rdm_desc']},
-            'pat_desc': {k: v for k, v in st['pat_desc']}}
+    out = {'n_cond': st['n_cond'], 'vecs': st['vecs'],
+           'rdm_desc': {k: v for k, v in st['rdm_desc']},
+           'pat_desc': {k: v for k, v in st['pat_desc']}}
+    if 'n_cond_2d' in st:        # model only: size recovered by the generated leaf
+        out['n_cond_2d'] = st['n_cond_2d']
+    return out
 
 
 # ------------------------------------------------------------------ the randint tap
@@ -169,7 +189,20 @@ class Tap:
         np.random.randint = self.orig
 
 
+def _value(case):
+    """the `value` argument of a direct subsample / subsample_pattern call"""
+    v = case['value']
+    kind = case['value_kind']
+    if kind == 'scalar':
+        return v[0]
+    if kind == 'np_scalar':
+        return np.array(v)[0]
+    return _container(v, kind)
+
+
 def _script(case):
+    if case.get('op') == 'resample':
+        return None
     d = case['draws']
     if 'seed' in d:
         return None
@@ -192,7 +225,7 @@ def _call(case):
     try:
         rdms = _build(case)
         res['source'] = _stack_json(rdms)
-        if 'seed' in case['draws']:
+        if 'seed' in case.get('draws', {}):
             np.random.seed(case['draws']['seed'])
         else:
             np.random.seed(12345)
@@ -201,9 +234,17 @@ def _call(case):
             kw['rdm_descriptor'] = case['rdm_by']
         if case.get('pat_by') is not None:
             kw['pattern_descriptor'] = case['pat_by']
+        elif case.get('pat_by_explicit_none'):
+            kw['pattern_descriptor'] = None      # documented: None means 'index'
         with Tap(_script(case)) as tap:
             try:
-                if case['mode'] == 'both':
+                if case.get('op') == 'resample':
+                    val = _value(case)
+                    if case['axis'] == 'rdm':
+                        sample, ridx, pidx = rdms.subsample(case.get('by'), val), val, None
+                    else:
+                        sample, ridx, pidx = rdms.subsample_pattern(case.get('by'), val), None, val
+                elif case['mode'] == 'both':
                     sample, ridx, pidx = B.bootstrap_sample(rdms, **kw)
                 elif case['mode'] == 'rdm':
                     kw.pop('pattern_descriptor', None)
@@ -241,15 +282,15 @@ def _freq_impl(case):
     key = json.dumps(case, sort_keys=True)
     if key in _CACHE:
         return _CACHE[key]
-    rdms = _build(case)
-    np.random.seed(case['draws']['seed'])
-    axis = case['axis']
-    by = case.get('rdm_by' if axis == 'rdm' else 'pat_by') or 'index'
-    desc = rdms.rdm_descriptors[by] if axis == 'rdm' else rdms.pattern_descriptors[by]
-    groups = sorted({_norm(x) for x in desc}, key=lambda z: (isinstance(z, str), z))
-    counts = {json.dumps(g): 0 for g in groups}
     unknown = 0
     try:
+        rdms = _build(case)
+        np.random.seed(case['draws']['seed'])
+        axis = case['axis']
+        by = case.get('rdm_by' if axis == 'rdm' else 'pat_by') or 'index'
+        desc = rdms.rdm_descriptors[by] if axis == 'rdm' else rdms.pattern_descriptors[by]
+        groups = sorted({_norm(x) for x in desc}, key=lambda z: (isinstance(z, str), z))
+        counts = {json.dumps(g): 0 for g in groups}
         for _ in range(case['n_draws']):
             if axis == 'rdm':
                 _, idx = B.bootstrap_sample_rdm(rdms, by)
@@ -293,6 +334,8 @@ def run_impl(case):
     r = _call(case)
     if 'exc' in r:
         return {'exc': r['exc'], 'msg': r.get('msg'), 'calls': r.get('calls', [])}
+    if case.get('op') == 'resample':
+        return {'stack': _canon_stack(_stack_json(r['sample'])), 'requests': [c['size'] for c in r['calls']]}
     out = {'stack': _canon_stack(_stack_json(r['sample'])),
            'rdm_idx': _idx_json(r['ridx']), 'pat_idx': _idx_json(r['pidx']),
            'idx_types': [type(x).__name__ for x in (r['ridx'], r['pidx']) if x is not None],
@@ -316,14 +359,23 @@ def _draws_for_model(case):
 
 def model_requests(case):
     if case.get('op') == 'freq':
-        rdms = _build(case)
-        by = case.get('rdm_by' if case['axis'] == 'rdm' else 'pat_by') or 'index'
-        desc = rdms.rdm_descriptors[by] if case['axis'] == 'rdm' else rdms.pattern_descriptors[by]
+        # descriptor taken from the case itself (the real constructor may be what is broken)
+        axis = case['axis']
+        by = case.get('rdm_by' if axis == 'rdm' else 'pat_by') or 'index'
+        n = case['n_rdm'] if axis == 'rdm' else case['n_cond']
+        desc = list(range(n))
+        for k, vals, _ in case['rdm_desc' if axis == 'rdm' else 'pat_desc']:
+            if k == by:
+                desc = vals
         return [{'op': 'c09.unique', 'desc': [_norm(x) for x in desc]}]
     r = _call(case)
     src = r.get('source')
     if src is None:           # the constructor itself raised: nothing to model
         return []
+    if case.get('op') == 'resample':
+        op = 'c09.resample_rdm' if case['axis'] == 'rdm' else 'c09.resample'
+        return [dict(src, op=op, rdm_by=case.get('by') or 'index', pat_by=case.get('by') or 'index',
+                     value=case['value'])]
     dr, dp = _draws_for_model(case)
     req = dict(src, op='c09.boot', mode=case['mode'], draws_r=dr, draws_p=dp,
                rdm_by=case.get('rdm_by') or 'index', pat_by=case.get('pat_by') or 'index')
@@ -349,6 +401,8 @@ def model_result(case, answers):
         return a
     if 'exc' in a:
         return {'exc': a['exc']}
+    if case.get('op') == 'resample':
+        return {'stack': _canon_stack(a['stack']), 'requests': []}
     out = {'stack': _canon_stack(a['stack']), 'rdm_idx': a['rdm_idx'], 'pat_idx': a['pat_idx'],
            'requests': [[0, sp[1], sp[0]] for sp in (a['spec_r'], a['spec_p']) if sp is not None]}
     if len(answers) > 1:
@@ -371,9 +425,9 @@ def compare(case, impl, model):
             return f"library {impl.get('exc')} ({impl.get('msg')}) vs model {model.get('exc')}"
         return None
     for k in ('requests', 'rdm_idx', 'pat_idx'):
-        if impl[k] != model[k]:
-            return f'{k}: library {impl[k]} != model {model[k]}'
-    if any(t != 'ndarray' for t in impl['idx_types']):
+        if impl.get(k) != model.get(k):
+            return f'{k}: library {impl.get(k)} != model {model.get(k)}'
+    if any(t != 'ndarray' for t in impl.get('idx_types', [])):
         return f"indices are not numpy arrays: {impl['idx_types']}"
     for name in ('stack', 'pred'):
         if (name in impl) != (name in model):
@@ -383,6 +437,9 @@ def compare(case, impl, model):
         a, b = impl[name], model[name]
         if a['n_cond'] != b['n_cond']:
             return f"{name}.n_cond {a['n_cond']} != {b['n_cond']}"
+        if b.get('n_cond_2d') is not None and b['n_cond_2d'] != a['n_cond']:
+            return (f"{name}: size recovered from the vector length by the generated leaf "
+                    f"{b['n_cond_2d']} != library n_cond {a['n_cond']}")
         if len(a['vecs']) != len(b['vecs']):
             return f"{name}: {len(a['vecs'])} RDMs != {len(b['vecs'])}"
         for r, (x, y) in enumerate(zip(a['vecs'], b['vecs'])):
@@ -411,7 +468,7 @@ def _tagpos(vals, what):
     return [int(str(x)[1:]) for x in vals]
 
 
-def _check_sample(case, src_vecs, sample, ridx, pidx, rdm_desc_key='rdm_desc'):
+def _check_sample(case, src_vecs, sample, ridx, pidx, rdm_desc_key='rdm_desc', free=False):
     """the property statement on one (source, sample, indices); returns None or a finding"""
     n_rdm, n_cond = len(src_vecs), case['n_cond']
     rd = {k: [_norm(x) for x in vals] for k, vals, _ in case[rdm_desc_key]}
@@ -430,21 +487,28 @@ def _check_sample(case, src_vecs, sample, ridx, pidx, rdm_desc_key='rdm_desc'):
     s_pd = {k: [_norm(x) for x in v] for k, v in sample.pattern_descriptors.items()}
     vec = np.asarray(sample.dissimilarities, dtype=float)
     # --- which source item is each sample item?  (hidden unique tag descriptors)
-    if TAG not in s_rd or TAG not in s_pd:
+    #     an axis built without descriptors is identified by the constructor's own unique `index`
+    rkey = TAG if TAG in rd else 'index'
+    ckey = TAG if TAG in pd else 'index'
+    if rkey not in s_rd or ckey not in s_pd:
         return {'what': 'descriptor lost in the sample', 'observed': [sorted(s_rd), sorted(s_pd)],
                 'expected': [sorted(rd), sorted(pd)]}
-    o_r = _tagpos(s_rd[TAG], 'r')
-    o_c = _tagpos(s_pd[TAG], 'c')
+    o_r = _tagpos(s_rd[rkey], 'r') if rkey == TAG else list(s_rd[rkey])
+    o_c = _tagpos(s_pd[ckey], 'c') if ckey == TAG else list(s_pd[ckey])
     for axis, by_key, idx, desc, orig, sdesc, n_src in (
             ('rdm', 'rdm_by', ridx, rd, o_r, s_rd, n_rdm),
             ('pattern', 'pat_by', pidx, pd, o_c, s_pd, n_cond)):
-        by = case.get(by_key) or 'index'
+        by = (case.get('by') if free else case.get(by_key)) or 'index'
         if idx is None:
             # axis not resampled: same items in the same order
             if orig != list(range(n_src)):
                 return {'what': f'{axis} axis changed although it was not resampled',
                         'observed': orig, 'expected': list(range(n_src))}
             want = {j: 1 for j in range(n_src)}
+        elif free:
+            # direct subsample / subsample_pattern call with caller-chosen values
+            drawn = [_norm(x) for x in case['value']]
+            want = {j: drawn.count(desc[by][j]) for j in range(n_src)}
         else:
             if not isinstance(idx, np.ndarray):
                 return {'what': f'{axis} indices are not returned as an index array',
@@ -505,6 +569,8 @@ def oracle(case):
                     'expected': 'every count within 6 sigma of n_draws', 'features': {'op': 'freq'}}
         return None
     r = _call(case)
+    if case.get('op') == 'resample' and 'exc' not in r:
+        return _check_sample(case, case['vecs'], r['sample'], r['ridx'], r['pidx'], free=True)
     if 'exc' in r:
         return {'what': 'bootstrap raised on a valid stack', 'observed': f"{r['exc']}: {r.get('msg')}",
                 'expected': 'a sample', 'features': {'exc': r['exc']}}
@@ -534,18 +600,45 @@ def _groups(vals):
 def features(case, impl):
     if case.get('op') == 'freq':
         return {'op': 'freq', 'axis': case['axis'], 'branches': ['freq']}
-    br = ['mode:' + case['mode'], 'form:' + case.get('form', '2d'),
-          'draws:' + ('recorded' if 'seed' in case['draws'] else 'injected')]
+    resample = case.get('op') == 'resample'
     rd = {k: (vals, cont) for k, vals, cont in case['rdm_desc']}
     pd = {k: (vals, cont) for k, vals, cont in case['pat_desc']}
     used = []
-    if case['mode'] != 'pattern':
-        used.append(('rdm', case.get('rdm_by'), rd, case['n_rdm']))
-    if case['mode'] != 'rdm':
-        used.append(('pattern', case.get('pat_by'), pd, case['n_cond']))
+    if resample:
+        br = ['op:resample', 'resample:' + case['axis'], 'form:' + case.get('form', '2d'),
+              'value:' + case['value_kind'], 'resample_by:' + ('none' if case.get('by') is None else 'named')]
+        d, n = (rd, case['n_rdm']) if case['axis'] == 'rdm' else (pd, case['n_cond'])
+        col = d.get(case.get('by') or 'index', (list(range(n)), 'list'))[0]
+        if any(v not in col for v in case['value']):
+            br.append('value:absent')
+        if len(set(case['value'])) < len(case['value']):
+            br.append('value:repeated')
+        used.append((case['axis'], case.get('by'), d, n))
+    else:
+        br = ['mode:' + case['mode'], 'form:' + case.get('form', '2d'),
+              'draws:' + ('recorded' if 'seed' in case['draws'] else 'injected')]
+        if case['mode'] != 'pattern':
+            used.append(('rdm', case.get('rdm_by'), rd, case['n_rdm']))
+        if case['mode'] != 'rdm':
+            used.append(('pattern', case.get('pat_by'), pd, case['n_cond']))
+        if case.get('pat_by_explicit_none') and case['mode'] != 'rdm':
+            br.append('pat_by:explicit_none')
+    if not case['rdm_desc']:
+        br.append('rdm_desc:none')
+    if not case['pat_desc']:
+        br.append('pat_desc:none')
+    if case.get('no_descriptors'):
+        br.append('descriptors:none')
+    if any(cont == 'scalar' for _, _, cont in case['rdm_desc']):
+        br.append('container:scalar')
+    if any(cont == 'scalar' for _, _, cont in case['pat_desc']):
+        br.append('container:scalar_pattern')
+    if case['n_cond'] == 1:
+        br.append('n_cond:1')
     kinds = set()
     for axis, by, d, n in used:
-        br.append('by:default' if by is None else 'by:named')
+        if not resample:
+            br.append('by:default' if by is None else 'by:named')
         vals, cont = d.get(by or 'index', (list(range(n)), 'list'))
         br.append('container:' + cont)
         kinds.add('str' if any(isinstance(x, str) for x in vals) else 'int')
@@ -559,9 +652,9 @@ def features(case, impl):
         br.append('src:nan')
     if any(x == 0 for x in flat if x is not None):
         br.append('src:zero')
-    if case.get('pred') and case['mode'] != 'rdm':
+    if case.get('pred') and not resample and case['mode'] != 'rdm':
         br.append('pred')
-    f = {'op': 'boot', 'mode': case['mode'], 'n_rdm': case['n_rdm'], 'n_cond': case['n_cond'],
+    f = {'op': case.get('op', 'boot'), 'mode': case.get('mode', case.get('axis')), 'n_rdm': case['n_rdm'], 'n_cond': case['n_cond'],
          'form': case.get('form', '2d'), 'desc_kind': '+'.join(sorted(kinds))}
     if impl and 'draws' in impl:
         draws = impl['draws']
@@ -581,6 +674,9 @@ def features(case, impl):
 def nontrivial_key(case, impl):
     if case.get('op') == 'freq':
         return ['freq', case['axis'], case['n_rdm'], case['n_cond'], case['draws']['seed']]
+    if case.get('op') == 'resample':
+        return ['resample', case['axis'], case['vecs'], case['rdm_desc'], case['pat_desc'],
+                case.get('by'), case['value'], case['value_kind']]
     if not impl or 'draws' not in impl:
         return None
     if all(sorted(d) == list(range(len(d))) for d in impl['draws']) and \
@@ -643,7 +739,7 @@ def _make_case(rng, n_rdm=None, n_cond=None, mode=None):
     n_cond = n_cond or rng.choice([2, 3, 3, 4, 4, 5, 5, 6, 7, 8])
     mode = mode or rng.choice(['both', 'both', 'rdm', 'pattern', 'pattern'])
     vecs = _tag_vecs(n_rdm, n_cond)
-    if rng.random() < 0.3:
+    if rng.random() < 0.3 and vecs[0]:
         for _ in range(rng.randint(1, 2)):
             r, k = rng.randrange(n_rdm), rng.randrange(len(vecs[0]))
             vecs[r][k] = rng.choice([None, 0])
@@ -656,6 +752,58 @@ def _make_case(rng, n_rdm=None, n_cond=None, mode=None):
         npair = n_cond * (n_cond - 1) // 2
         case['pred'] = {'vecs': [[9000 + k + 1 for k in range(npair)]]}
         case['pred_rdm_desc'] = [[TAG, ['r0'], 'list'], ['model', ['m'], 'list']]
+    return case
+
+
+def _vary_construction(rng, case):
+    """round 2: the constructor / default branches of the anchored code"""
+    r = rng.random()
+    if case['n_rdm'] == 1 and r < 0.5:
+        if rng.random() < 0.5:
+            case['form'] = '1d'
+        if rng.random() < 0.6:
+            case['rdm_desc'] = [[k, v, 'scalar'] for k, v, _ in case['rdm_desc']]
+    r = rng.random()
+    if r < 0.08 and case.get('rdm_by') is None and not any(k == 'index' for k, _, _ in case['rdm_desc']):
+        case['rdm_desc'] = []          # rdm_descriptors=None; items identified by the auto index
+        if 'pred' in case:
+            case['pred_rdm_desc'] = []
+    r = rng.random()
+    if r < 0.08 and case.get('pat_by') is None and not any(k == 'index' for k, _, _ in case['pat_desc']):
+        case['pat_desc'] = []
+    if rng.random() < 0.1:
+        case['no_descriptors'] = True
+    if case.get('pat_by') is None and rng.random() < 0.3:
+        case['pat_by_explicit_none'] = True
+    return case
+
+
+def _resample_case(rng):
+    """a direct call rdms.subsample(by, value) / rdms.subsample_pattern(by, value)"""
+    case = _make_case(rng, mode='both')
+    case.pop('pred', None)
+    case.pop('pred_rdm_desc', None)
+    case.pop('mode')
+    axis = rng.choice(['rdm', 'pattern'])
+    descs, by, n = (case['rdm_desc'], case['rdm_by'], case['n_rdm']) if axis == 'rdm' else \
+        (case['pat_desc'], case['pat_by'], case['n_cond'])
+    col = list(range(n))
+    for k, vals, _ in descs:
+        if k == (by or 'index'):
+            col = vals
+    kind = rng.choice(['scalar', 'np_scalar', 'list', 'list', 'tuple', 'array', 'array'])
+    if kind in ('scalar', 'np_scalar'):
+        value = [rng.choice(col)]
+    else:
+        value = [rng.choice(col) for _ in range(rng.randint(1, n + 2))]
+        if rng.random() < 0.2:       # a value no item carries selects nothing
+            absent = 'nope' if isinstance(col[0], str) else 99
+            value.insert(rng.randrange(len(value) + 1), absent)
+    case.pop('rdm_by')
+    case.pop('pat_by')
+    case.update(op='resample', axis=axis, by=by, value=value, value_kind=kind)
+    if case['n_rdm'] == 1 and rng.random() < 0.3:
+        case['form'] = '1d'
     return case
 
 
@@ -689,7 +837,18 @@ def _all_draws(m):
 def generate(rng, tier):
     n = 1500 if tier == 'quick' else 30000
     for i in range(n):
-        yield _with_draws(rng, _make_case(rng), 'seed' if i % 2 else 'inject')
+        c = _make_case(rng)
+        if i % 3 == 0:
+            c = _vary_construction(rng, c)
+        yield _with_draws(rng, c, 'seed' if i % 2 else 'inject')
+    for _ in range(n // 4):
+        yield _resample_case(rng)
+    # degenerate stacks with a single condition (vector length 0), scalar pattern descriptors
+    for i in range(max(6, n // 100)):
+        c = _make_case(rng, n_cond=1)
+        if i % 2 == 0:
+            c['pat_desc'] = [[k, v, 'scalar'] for k, v, _ in c['pat_desc']]
+        yield _with_draws(rng, _vary_construction(rng, c), 'seed' if i % 3 else 'inject')
     for _ in range(12 if tier == 'quick' else 60):
         yield _freq_case(rng, 300 if tier == 'quick' else 1500)
     # every draw outcome of small stacks (quick: one stack of 3 groups; thorough: up to 4 groups)
@@ -720,7 +879,12 @@ def generate(rng, tier):
 def search(rng, tier):
     """failing-input search: more injected draws on small stacks, then the general stream"""
     for i in range(4000):
+        if i % 5 == 4:
+            yield _resample_case(rng)
+            continue
         c = _make_case(rng)
+        if i % 4 == 0:
+            c = _vary_construction(rng, c)
         yield _with_draws(rng, c, 'inject' if i % 3 else 'seed')
         if i % 25 == 0:
             yield _freq_case(rng, 300)
@@ -757,7 +921,7 @@ def _drop_cond(c):
 def shrink(case, still_fails):
     """drop what is not needed for the failure: prediction, extra descriptors, 3-d form,
     trailing RDMs and conditions"""
-    if case.get('op') == 'freq':
+    if case.get('op') in ('freq', 'resample'):
         return case
     cur = json.loads(json.dumps(case))
 
